@@ -33,6 +33,7 @@ type cfg struct {
 	gated    bool          // concurrency 1 and bodies that block until the end: value = starts + drops
 	slow     time.Duration // concurrency 1 and bodies that take this long (not a multiple of the interval): exact starts/drops from a reference simulation
 	stall    time.Duration // the rate function itself takes this long on its 2nd and 4th evaluation (a slow ticking goroutine)
+	few      int           // this many workers although the profile asks for more per tick (instant bodies: each worker runs several)
 }
 
 func (c cfg) name() string {
@@ -41,6 +42,9 @@ func (c cfg) name() string {
 	}
 	if c.stall > 0 {
 		return fmt.Sprintf("ticker/interval=%s/length=%s/profile=%v/rate-function-stalls=%s", c.interval, c.length, c.profile, c.stall)
+	}
+	if c.few > 0 {
+		return fmt.Sprintf("ticker/interval=%s/length=%s/profile=%v/workers=%d", c.interval, c.length, c.profile, c.few)
 	}
 	return fmt.Sprintf("ticker/interval=%s/length=%s/profile=%v/gated=%v", c.interval, c.length, c.profile, c.gated)
 }
@@ -82,7 +86,9 @@ func scenario(c cfg) vrt.Scenario {
 			return v
 		}
 		conc := 1
-		if !c.gated && c.slow == 0 {
+		if c.few > 0 {
+			conc = c.few
+		} else if !c.gated && c.slow == 0 {
 			for _, v := range c.profile {
 				if v > conc {
 					conc = v
@@ -130,6 +136,9 @@ func scenario(c cfg) vrt.Scenario {
 					}
 				}
 				evals++
+				if v < 0 {
+					v = 0 // a negative value requests nothing
+				}
 				sum += v
 				lastVal, lastAt = v, t
 				valueAt[t] += v
@@ -241,6 +250,14 @@ func scenariosFor(tier string) []vrt.Scenario {
 		out = append(out, s)
 	}
 	out = append(out, scenario(cfg{interval: 100 * ms, length: 250*ms + ms, profile: []int{2, 0, 1, 3}}).WithPlainPoints(b))
+	// negative values request nothing; values above the concurrency are requested in full (one worker runs several per tick)
+	for _, c := range []cfg{{interval: 100 * ms, length: 350 * ms, profile: []int{-3, 2, -1, 1}}, {interval: 100 * ms, length: 250 * ms, profile: []int{5, 3}, few: 2}} {
+		s := scenario(c)
+		s.Bound = b
+		s.Delay = true
+		s.Name += "/policy=delay"
+		out = append(out, s)
+	}
 	for _, iv := range intervals {
 		lengths := []time.Duration{iv / 2, iv, iv*5/2 + ms, 3*iv - ms}
 		if tier == "quick" {
